@@ -69,6 +69,7 @@ type Patch struct {
 	HasMeta bool      `json:"hasmeta,omitempty"`
 	Gen   *int64      `json:"gen,omitempty"`
 	Md5   *string     `json:"md5,omitempty"`
+	Metagen *int64    `json:"metagen,omitempty"`
 }
 
 func (p Patch) coq() string {
@@ -80,7 +81,11 @@ func (p Patch) coq() string {
 	if p.Gen != nil {
 		gen = "(Some " + cZ(*p.Gen) + ")"
 	}
-	return fmt.Sprintf("(mkPatch %s %s %s %s %s)", cBool(p.Bad), cOptStr(p.CType), meta, gen, cOptStr(p.Md5))
+	mg := "None"
+	if p.Metagen != nil {
+		mg = "(Some " + cZ(*p.Metagen) + ")"
+	}
+	return fmt.Sprintf("(mkPatch %s %s %s %s %s %s)", cBool(p.Bad), cOptStr(p.CType), meta, gen, cOptStr(p.Md5), mg)
 }
 
 type Src struct {
@@ -620,6 +625,9 @@ func (e *Emu) exec(r Req, out *Resp) (*httptest.ResponseRecorder, string) {
 			}
 			if r.Patch.Md5 != nil {
 				o["md5Hash"] = *r.Patch.Md5
+			}
+			if r.Patch.Metagen != nil {
+				o["metageneration"] = strconv.FormatInt(*r.Patch.Metagen, 10)
 			}
 			body, _ = json.Marshal(o)
 		}
